@@ -3,79 +3,92 @@
    Print Assumptions follows every theorem.   *)
 
 From Coq Require Import List NArith Bool Sorting Permutation.
-From Ice Require Import Base Spec.
-From IceProofs Require MergeAlgebra_Proofs Sort_Proofs.
+From Ice Require Import Enumerator Units.
+From IceProofs Require MergeAlgebra_Proofs Sort_Proofs Units_Proofs.
 Import ListNotations.
 Open Scope N_scope.
 
 (* merging a group first and the rest afterwards = merging everything at once (fields, documents and statistics) *)
 Theorem merge_assoc_prefix :
-    forall xs ys : list (ASeg * list N),
-    fst (merge_spec ((fst (merge_spec xs), []) :: ys)) = fst (merge_spec (xs ++ ys)).
-Proof. exact MergeAlgebra_Proofs.merge_assoc_prefix. Qed.
+    forall xs ys : list (Spec.ASeg * list N),
+    fst (Spec.merge_spec ((fst (Spec.merge_spec xs), []) :: ys)) = fst (Spec.merge_spec (xs ++ ys)).
+Proof. exact @MergeAlgebra_Proofs.merge_assoc_prefix. Qed.
 Print Assumptions merge_assoc_prefix.
 
 (* the same for a group in the middle: every order-preserving grouping follows by iteration *)
 Theorem merge_assoc_general :
-    forall xs ys zs : list (ASeg * list N),
-    fst (merge_spec (xs ++ (fst (merge_spec ys), []) :: zs)) = fst (merge_spec (xs ++ ys ++ zs)).
-Proof. exact MergeAlgebra_Proofs.merge_assoc_general. Qed.
+    forall xs ys zs : list (Spec.ASeg * list N),
+    fst (Spec.merge_spec (xs ++ (fst (Spec.merge_spec ys), []) :: zs)) =
+    fst (Spec.merge_spec (xs ++ ys ++ zs)).
+Proof. exact @MergeAlgebra_Proofs.merge_assoc_general. Qed.
 Print Assumptions merge_assoc_general.
 
 (* deletions applied after a merge, translated through the reported table, = deletions applied in the merge *)
 Theorem merge_translate_single :
-    forall (A : ASeg) (dr : list N),
-    Forall (fun d : N => d < o_count A) dr ->
-    let M := fst (merge_spec [(A, [])]) in
-    let tbl := hd [] (snd (merge_spec [(A, [])])) in
-    as_docs (fst (merge_spec [(M, MergeAlgebra_Proofs.translate_drops tbl dr)])) =
-    as_docs (fst (merge_spec [(A, dr)])).
-Proof. exact MergeAlgebra_Proofs.merge_translate_single. Qed.
+    forall (A : Spec.ASeg) (dr : list N),
+    Forall (fun d : N => d < Spec.o_count A) dr ->
+    let M := fst (Spec.merge_spec [(A, [])]) in
+    let tbl := hd [] (snd (Spec.merge_spec [(A, [])])) in
+    Spec.as_docs (fst (Spec.merge_spec [(M, MergeAlgebra_Proofs.translate_drops tbl dr)])) =
+    Spec.as_docs (fst (Spec.merge_spec [(A, dr)])).
+Proof. exact @MergeAlgebra_Proofs.merge_translate_single. Qed.
 Print Assumptions merge_translate_single.
 
 (* single-segment identity: fields and documents unchanged, identity table, statistics in the merged flavour *)
 Theorem merge_identity :
-    forall A : ASeg,
-    MergeAlgebra_Proofs.canonical_fields (as_fields A) ->
-    as_fields (fst (merge_spec [(A, [])])) = as_fields A /\
-    as_docs (fst (merge_spec [(A, [])])) = as_docs A /\
-    as_stats (fst (merge_spec [(A, [])])) =
-    map (fun f : bytes => (f, merged_stats (as_docs A) f)) (as_fields A) /\
-    snd (merge_spec [(A, [])]) = [map N.of_nat (seq 0 (length (as_docs A)))].
-Proof. exact MergeAlgebra_Proofs.merge_identity. Qed.
+    forall A : Spec.ASeg,
+    MergeAlgebra_Proofs.canonical_fields (Spec.as_fields A) ->
+    Spec.as_fields (fst (Spec.merge_spec [(A, [])])) = Spec.as_fields A /\
+    Spec.as_docs (fst (Spec.merge_spec [(A, [])])) = Spec.as_docs A /\
+    Spec.as_stats (fst (Spec.merge_spec [(A, [])])) =
+    map (fun f : bytes => (f, Spec.merged_stats (Spec.as_docs A) f)) (Spec.as_fields A) /\
+    snd (Spec.merge_spec [(A, [])]) = [map N.of_nat (seq 0 (length (Spec.as_docs A)))].
+Proof. exact @MergeAlgebra_Proofs.merge_identity. Qed.
 Print Assumptions merge_identity.
 
 (* a merged segment is a fixed point of the single-segment merge, statistics included *)
 Theorem merge_identity_merged :
-    forall ins : list (ASeg * list N),
-    fst (merge_spec [(fst (merge_spec ins), [])]) = fst (merge_spec ins).
-Proof. exact MergeAlgebra_Proofs.merge_identity_merged. Qed.
+    forall ins : list (Spec.ASeg * list N),
+    fst (Spec.merge_spec [(fst (Spec.merge_spec ins), [])]) = fst (Spec.merge_spec ins).
+Proof. exact @MergeAlgebra_Proofs.merge_identity_merged. Qed.
 Print Assumptions merge_identity_merged.
 
 (* statistics of a merge are additive over the surviving documents *)
 Theorem merge_stats_additive :
-    forall (docs1 docs2 : list ADoc) (f : bytes),
-    merged_stats (docs1 ++ docs2) f =
-    (fst (merged_stats docs1 f) + fst (merged_stats docs2 f),
-    snd (merged_stats docs1 f) + snd (merged_stats docs2 f)).
-Proof. exact MergeAlgebra_Proofs.merge_stats_additive. Qed.
+    forall (docs1 docs2 : list Spec.ADoc) (f : bytes),
+    Spec.merged_stats (docs1 ++ docs2) f =
+    (fst (Spec.merged_stats docs1 f) + fst (Spec.merged_stats docs2 f),
+    snd (Spec.merged_stats docs1 f) + snd (Spec.merged_stats docs2 f)).
+Proof. exact @MergeAlgebra_Proofs.merge_stats_additive. Qed.
 Print Assumptions merge_stats_additive.
 
 (* non-vacuity: three segments, both bracketings *)
 Example merge_bracketings_agree :
     let all :=
     fst
-    (merge_spec
+    (Spec.merge_spec
     [(MergeAlgebra_Proofs.exm_A, [1]); (MergeAlgebra_Proofs.exm_B, []);
     (MergeAlgebra_Proofs.exm_C, [0])]) in
     fst
-    (merge_spec
-    [(fst (merge_spec [(MergeAlgebra_Proofs.exm_A, [1]); (MergeAlgebra_Proofs.exm_B, [])]), []);
+    (Spec.merge_spec
+    [(fst (Spec.merge_spec [(MergeAlgebra_Proofs.exm_A, [1]); (MergeAlgebra_Proofs.exm_B, [])]), []);
     (MergeAlgebra_Proofs.exm_C, [0])]) = all /\
     fst
-    (merge_spec
+    (Spec.merge_spec
     [(MergeAlgebra_Proofs.exm_A, [1]);
-    (fst (merge_spec [(MergeAlgebra_Proofs.exm_B, []); (MergeAlgebra_Proofs.exm_C, [0])]), [])]) =
-    all /\ as_fields all = [id_name; [97]; [98]; [99]] /\ length (as_docs all) = 5%nat.
-Proof. exact MergeAlgebra_Proofs.merge_bracketings_agree. Qed.
+    (fst (Spec.merge_spec [(MergeAlgebra_Proofs.exm_B, []); (MergeAlgebra_Proofs.exm_C, [0])]), [])]) =
+    all /\ Spec.as_fields all = [Spec.id_name; [97]; [98]; [99]] /\ length (Spec.as_docs all) = 5%nat.
+Proof. exact @MergeAlgebra_Proofs.merge_bracketings_agree. Qed.
 Print Assumptions merge_bracketings_agree.
+
+(* the transcript of Current/Next on the enumerator model - the one compared with the real enumerator over real vellum FSTs on every check - is the sorted (key, input, value) list of all inputs, up to nil versus empty for the empty key *)
+Theorem enumerator_script_is_sorted_union :
+    forall (its : list vitr) (fuel : nat),
+    Forall Enumerator_Proofs.key_sorted its ->
+    Forall Enumerator_Proofs.empty_key_nz its ->
+    (total_pairs its < fuel)%nat ->
+    exists tr : list (gokey * nat * N),
+    map Units_Proofs.forget_nil tr = spec_triples its /\
+    run_enum_script its (Units_Proofs.cur_next fuel) = Units_Proofs.w_steps tr.
+Proof. exact @Units_Proofs.run_enum_script_spec. Qed.
+Print Assumptions enumerator_script_is_sorted_union.
